@@ -194,7 +194,8 @@ impl SolidAdapter {
     }
 
     fn get_object_url(&self, key: &str) -> Result<(String, Url)> {
-        let prefix = &key[..2];
+        // Keys shorter than the prefix (or with a multi-byte character across its end) are their own prefix
+        let prefix = key.get(..2).unwrap_or(key);
         let objecturl = self.url.clone() + "/" + self.folder.as_str() + "/" + prefix + "/" + key;
         Ok((prefix.to_string(), Url::parse(&objecturl)?))
     }
